@@ -597,6 +597,16 @@ def dtype_of_scalar(v):
 # --------------------------------------------------------------------------------------------------
 # structured values
 
+class OptDict(dict):
+    """a dict some of whose keys may be absent: maybe[key] is the (boolean term) presence of a key that is stored here.
+    The executor resolves the presence of a key by a case split when the program first touches it; keys the program
+    never touches keep their symbolic presence, so a proof covers every combination of present / absent keys."""
+
+    def __init__(self, *a, maybe=None, **k):
+        super().__init__(*a, **k)
+        self.maybe = dict(maybe or {})
+
+
 class Range:
     def __init__(self, lo, hi):
         self.lo = lo
